@@ -8,6 +8,7 @@ mod gen;
 mod ledger;
 mod model;
 mod pairs;
+mod proc;
 mod rates;
 mod report;
 
@@ -125,6 +126,23 @@ fn main() {
                 }
             }
             println!("crash points {n}");
+        }
+        "det-run" => {
+            let cases = read_cases(&arg(&args, "--in").expect("--in"));
+            let out = arg(&args, "--out").expect("--out");
+            let seeds: u64 = arg(&args, "--seeds").and_then(|s| s.parse().ok()).unwrap_or(8);
+            let scratch = std::path::PathBuf::from(arg(&args, "--scratch").expect("--scratch"));
+            std::fs::create_dir_all(&scratch).unwrap();
+            let recs = par_map(&cases, threads, |c| proc::det_records(c, &scratch, seeds));
+            let mut w = BufWriter::new(std::fs::File::create(out).unwrap());
+            let mut n = 0;
+            for rv in recs {
+                for r in rv {
+                    writeln!(w, "{}", serde_json::to_string(&r).unwrap()).unwrap();
+                    n += 1;
+                }
+            }
+            println!("determinism records {n}");
         }
         "rowrates" => {
             let seed: u64 = arg(&args, "--seed").and_then(|s| s.parse().ok()).unwrap_or(1);
